@@ -57,7 +57,7 @@ func regServices() []ServiceSpec {
 	return []ServiceSpec{
 		// (below /g/v four variable edges with different patterns, owned alternately by A and B - dropping one service
 		// must not disturb its siblings, whatever their order; A.m2 and B.m2 have a binding nested below their primary one;
-	// A.m1 is bound to a literal and to a variable edge of one node, B.m2 to a template that starts with a variable)
+		// A.m1 is bound to a literal and to a variable edge of one node, B.m2 to a template that starts with a variable)
 		{Pkg: "vg", Name: "A", Methods: []MethodSpec{{Name: "m1", Rule: more(body("/g/a/m1/{s}"), "/g/a/alt/{s}", "/g/v/{s=aa/*}", "/g/w/fixed", "/g/w/{s}")},
 			{Name: "m2", Rule: more(body("/g/a/m2"), "/g/a2/m2", "/g/a3/{s}/m2", "/g/v/{s=cc/*}/tail", "/g/a/m2/{s}/deep")}}},
 		{Pkg: "vg", Name: "B", Methods: []MethodSpec{{Name: "m1", Rule: bm1}, {Name: "m2", Rule: more(body("/g/a/m1/{s}/b"), "/g/v/{s=dd/*}", "/g/a/m1/{s}/b/{t}/deeper", "/{s}/gone")}}},
